@@ -246,6 +246,7 @@ def run(ctx):
         ctx.sample({"model": mname, "grid": gname, "options": opts, "outcome": real["outcome"]}, cap=3)
     session_pass(ctx)
     dividing_volume(ctx)
+    built_in_steps(ctx)
 
 
 def session_pass(ctx):
@@ -276,6 +277,50 @@ def session_pass(ctx):
                 return
             ctx.count("session_calls")
         ctx.nontriv(("session", mname))
+
+
+STEPWISE = {"species": ["A", "B", "C", "X"], "reactions": [
+    {"reactants": [], "products": ["X"], "prop": {"type": "massaction", "k": "kb"}},
+    {"reactants": ["X"], "products": [], "prop": {"type": "massaction", "k": "kd"}}],
+    "params": {"kb": 2.0, "kd": 0.4}, "ic": {"A": 0, "B": 1, "C": 0, "X": 5},
+    # a chain of rules whose result depends on how often a pass runs them: one pass in the given order from B = 1 gives
+    # A = 1, B = 3, C = 1 + 2*3
+    "first": {"A": 1.0, "B": 3.0, "C": 7.0, "X": 5.0},
+    "rules": [{"type": "assignment", "attrs": {"equation": "A = B"}}, {"type": "assignment", "attrs": {"equation": "B = 3 + t"}},
+              {"type": "assignment", "attrs": {"equation": "C = A + 2*B"}}]}
+
+
+def built_in_steps(ctx):
+    """the same system written down in one go, and in steps (the rules and one reaction in the constructor, the other reaction
+    added afterwards; also after a first simulation): every option combination's first row is the initial condition with each
+    rule applied once."""
+    T = GRIDS["5"]
+    for how in ("one-go", "reaction-added", "reaction-added-after-a-run"):
+        def make():
+            if how == "one-go":
+                return build_model(STEPWISE)
+            part = dict(STEPWISE, reactions=STEPWISE["reactions"][:1])
+            M = build_model(part)
+            if how == "reaction-added-after-a-run":
+                call_real(M, {"stochastic": False, "delay": False, "safe": False, "volume": "off", "dataframe": False, "model": True, "interface": False}, T)
+                M.set_species({k: float(v) for k, v in STEPWISE["ic"].items()})
+            M.create_reaction(["X"], [], "massaction", {"k": "kd"})
+            return M
+        for opts in lattice():
+            ctx.begin_case({"model": "stepwise", "built": how, "options": opts})
+            M = make()
+            first = expected_first_row(M, T, STEPWISE, opts)
+            real = call_real(M, opts, T)
+            ctx.evaluated()
+            if real["outcome"] != "result":
+                ctx.violation("entry/stepwise/internal-error", "model built as %s: %s" % (how, real.get("msg")), {"built": how, "options": opts, "implementation": real})
+                return
+            if not np.allclose(real["first"], first, rtol=1e-7, atol=1e-9):
+                ctx.violation("entry/stepwise/first-row", "model built as %s: first row %s is not the initial condition with each rule applied once %s"
+                              % (how, real["first"], first), {"built": how, "options": opts, "implementation": real})
+                return
+            ctx.count("stepwise:" + how)
+        ctx.nontriv(("stepwise", how))
 
 
 def call_real_neither(opts, T):
